@@ -52,6 +52,11 @@ class Tuple:
         self.items = list(items)
 
     def show(self):
+        # (x.0, x.1, ..) taken apart and put together again is x itself (eta rule for tuples)
+        if len(self.items) >= 2 and all(isinstance(a, Sym) for a in self.items):
+            base = self.items[0].term[:-2] if self.items[0].term.endswith(".0") else None
+            if base and all(a.term == "%s.%d" % (base, i) for i, a in enumerate(self.items)):
+                return base
         return "(%s)" % ", ".join(show(a) for a in self.items)
 
 
@@ -316,6 +321,18 @@ class Interp:
                 return self.truth(v) == p["v"][0]
             r = self.compare("==", v, Lit(p["v"][0]))
             return self.truth(r)
+        if k == "struct" and (p["res"].get("dk") in ("Struct",) or not str(p["res"].get("dk", "")).startswith("Ctor")) and p["res"].get("dk") != "Variant":
+            # plain struct destructuring: bind every field pattern to the field of the value
+            for f in p["fields"]:
+                if isinstance(v, Struct) and f["name"] in v.fields:
+                    fv = v.fields[f["name"]]
+                elif isinstance(v, Sym):
+                    fv = Sym("%s.%s" % (v.term, f["name"]))
+                else:
+                    raise Cannot("cannot destructure %s" % show(v))
+                if not self.match_pat(f["pat"], fv, env):
+                    return False
+            return True
         if k in ("tuple_struct", "path", "struct"):
             name = sname(p["res"].get("path"))
             v = self.open_variant(v, name, p)
@@ -328,6 +345,15 @@ class Interp:
                     raise Cannot("arity mismatch in pattern %s" % name)
                 return all(self.match_pat(sp, a, env) for sp, a in zip(p["pats"], v.args))
             if k == "struct":
+                # positional fields written with numeric names (`Continue{0: val}`, as the `?` desugaring does)
+                if all(f["name"].isdigit() for f in p["fields"]):
+                    for f in p["fields"]:
+                        i_ = int(f["name"])
+                        if i_ >= len(v.args):
+                            raise Cannot("arity mismatch in pattern %s" % name)
+                        if not self.match_pat(f["pat"], v.args[i_], env):
+                            return False
+                    return True
                 raise Cannot("struct-variant patterns are not modelled")
             return True
         raise Cannot("pattern kind %s" % k)
@@ -599,6 +625,9 @@ class Interp:
     def ev_let_cond(self, n, env):
         return Lit(self.cond(n, env))
 
+    def ev_repeat(self, n, env):
+        return Sym("[%s; _]" % show(self.ev(n["e"], env)), n.get("ty"))
+
     def ev_unknown(self, n, env):
         raise Cannot("unknown HIR node %s at %s" % (n.get("what"), T.loc(n)))
 
@@ -764,6 +793,105 @@ def _opt_unwrap(I, a, n, env):
 def _opt_unwrap_or(I, a, n, env):
     o = I.open_option(a[0])
     return o.args[0] if o.name == "Some" else a[1]
+
+
+def _opt_is_some_and(I, a, n, env):
+    o = I.open_option(a[0])
+    if o.name == "Some":
+        return Lit(I.truth(I.apply(a[1], [o.args[0]])))
+    return Lit(False)
+
+
+def _opt_is_none_or(I, a, n, env):
+    o = I.open_option(a[0])
+    if o.name == "Some":
+        return Lit(I.truth(I.apply(a[1], [o.args[0]])))
+    return Lit(True)
+
+
+def _res_is_ok_and(I, a, n, env):
+    o = I.open_result(a[0])
+    if o.name == "Ok":
+        return Lit(I.truth(I.apply(a[1], [o.args[0]])))
+    return Lit(False)
+
+
+def _opt_unwrap_or_default(I, a, n, env):
+    o = I.open_option(a[0])
+    if o.name == "Some":
+        return o.args[0]
+    ty = (n.get("ty") or "").lstrip("&")
+    if ty in ("str", "std::string::String"):
+        return Lit("")
+    if ty in ("usize", "u32", "u64", "i32", "i64"):
+        return Lit(0)
+    if ty == "bool":
+        return Lit(False)
+    if ty.startswith("std::vec::Vec<"):
+        return VecV([])
+    return Sym("default::<%s>()" % ty, ty)
+
+
+def _try_branch(I, a, n, env):
+    """`x?`: Option/Result -> ControlFlow (Continue(payload) | Break(residual))."""
+    v = a[0]
+    ty = T.strip_generics((n["args"][0].get("ty") or "")) if n.get("args") else ""
+    if isinstance(v, Variant) and v.name in ("Ok", "Err") or "result::Result" in ty:
+        r = I.open_result(v)
+        return Variant("ControlFlow::Continue", [r.args[0]]) if r.name == "Ok" else Variant("ControlFlow::Break", [r])
+    o = I.open_option(v)
+    return Variant("ControlFlow::Continue", [o.args[0]]) if o.name == "Some" else Variant("ControlFlow::Break", [o])
+
+
+def _format(I, a, n, env):
+    """format!("..{}..", x, y) with plain `{}` placeholders -> the assembled string parts."""
+    import re as _re
+    snip = n.get("snip") or ""
+    m = _re.match(r'^format!\(\s*"((?:[^"\\]|\\.)*)"\s*(?:,(.*))?\)$', snip, _re.S)
+    if not m:
+        raise Cannot("format! invocation not understood: %s" % snip[:60])
+    fmt = m.group(1)
+    pieces = _re.split(r"(\{[^}]*\})", fmt)
+    # argument values: the expansion starts with `let args = (&a, &b, ..);`
+    blk = T.peel(n["args"][0]) if n.get("args") else None
+    vals = []
+    if blk is not None and blk.get("k") == "blockexpr" and blk["block"]["stmts"]:
+        st0 = blk["block"]["stmts"][0]
+        if st0.get("k") == "let" and st0.get("init") is not None:
+            v = I.ev(st0["init"], env)
+            vals = list(v.items) if isinstance(v, Tuple) else [v]
+    parts = []
+    vi = 0
+    named = {}
+    for pc in pieces:
+        if not pc:
+            continue
+        if pc.startswith("{") and pc.endswith("}"):
+            inner = pc[1:-1]
+            if inner == "":
+                if vi >= len(vals):
+                    raise Cannot("format!: more placeholders than arguments")
+                parts.append(vals[vi])
+                vi += 1
+            elif _re.match(r"^[A-Za-z_][A-Za-z0-9_]*$", inner):
+                # inline named argument `{name}`: captured in order of first appearance
+                if inner not in named:
+                    if vi >= len(vals):
+                        raise Cannot("format!: captured argument not found")
+                    named[inner] = vals[vi]
+                    vi += 1
+                parts.append(named[inner])
+            else:
+                raise Cannot("format!: placeholder `%s` (width / precision / debug) is not modelled" % pc)
+        else:
+            parts.append(Lit(pc.replace("\\n", "\n").replace("\\t", "\t").replace('\\"', '"').replace("{{", "{").replace("}}", "}")))
+    out = []
+    for p_ in parts:
+        if isinstance(p_, StrCat):
+            out.extend(p_.parts)
+        else:
+            out.append(p_)
+    return StrCat(out)
 
 
 def _opt_filter(I, a, n, env):
@@ -965,6 +1093,18 @@ MODELS = {
     "std::option::Option::expect": _opt_unwrap,
     "std::option::Option::unwrap_or": _opt_unwrap_or,
     "std::option::Option::filter": _opt_filter,
+    "std::option::Option::is_some_and": _opt_is_some_and,
+    "std::option::Option::is_none_or": _opt_is_none_or,
+    "std::result::Result::is_ok_and": _res_is_ok_and,
+    "std::option::Option::unwrap_or_default": _opt_unwrap_or_default,
+    "alloc::fmt::format": _format,
+    "std::ops::Try::branch": _try_branch,
+    "core::ops::Try::branch": _try_branch,
+    "std::ops::FromResidual::from_residual": lambda I, a, n, env: a[0],
+    "core::ops::FromResidual::from_residual": lambda I, a, n, env: a[0],
+    "std::hint::must_use": lambda I, a, n, env: a[0],
+    "core::hint::must_use": lambda I, a, n, env: a[0],
+    "std::fmt::format": _format,
     "std::result::Result::is_ok": _res_is_ok,
     "std::result::Result::is_err": _res_is_err,
     "std::result::Result::unwrap": _res_unwrap,
